@@ -54,7 +54,7 @@ func generateUniqueKeyFromSequences(batch WriteBatch, req *proto.PutRequest) (st
 		if idx < len(parts) {
 			_, err := fmt.Sscanf(parts[idx], "%020d", &lastValue)
 			if err != nil {
-				return "", err
+				return "", errors.Wrapf(ErrInvalidSequenceKey, "%v", err)
 			}
 		} else {
 			// There are additional sequences
